@@ -309,6 +309,12 @@ def contains(I, c, item):
             return mk(z3.Or(*acc), 'bool')
         return False
     if isinstance(c, str):
+        if isinstance(item, DigitChar):
+            if all(d in c for d in '0123456789'):
+                return True
+            if not any(d in c for d in '0123456789'):
+                return False
+            raise Unsupported('membership of an unknown digit character')
         if isinstance(item, str):
             return item in c
         if isinstance(item, Rope):
@@ -324,6 +330,13 @@ def contains(I, c, item):
 # ---------------------------------------------------------------------------- equality / comparison
 def equal(I, a, b):
     """== : returns bool or Sym bool"""
+    if isinstance(a, DigitChar) or isinstance(b, DigitChar):
+        o = b if isinstance(a, DigitChar) else a
+        if isinstance(o, str) and len(o) == 1 and not o.isdigit():
+            return False
+        if isinstance(o, str) and len(o) != 1:
+            return False
+        raise Unsupported('comparison of an unknown digit character')
     if isinstance(a, VObj) or isinstance(b, VObj):
         for x, y in ((a, b), (b, a)):
             if isinstance(x, VObj):
@@ -1037,7 +1050,7 @@ def rope_contains(I, rope, item):
         for p in rope.parts:
             if isinstance(p, str) and item in p:
                 return True
-        if any(ch not in FMT_ALPHABET for ch in item) and all(isinstance(p, str) or p.kind == 'f' for p in rope.parts):
+        if any(ch not in FMT_ALPHABET for ch in item) and all(isinstance(p, str) or p.kind in ('f', 'exact') for p in rope.parts):
             # needle contains a char no Fmt piece can produce, but could straddle pieces: check boundaries conservatively
             for idx, p in enumerate(rope.parts):
                 if not isinstance(p, str):
@@ -1048,7 +1061,7 @@ def rope_contains(I, rope, item):
         if isinstance(p, str):
             if item in p:
                 return True
-        elif p.kind == 'f':
+        elif p.kind in ('f', 'exact'):
             if item in FMT_ALPHABET:
                 if item == '.' and isinstance(p.prec, int) and p.prec > 0:
                     return True
@@ -1080,7 +1093,7 @@ def rope_equal(I, a, b):
             if fixed.count(ch) > s.count(ch) and ch not in FMT_ALPHABET:
                 return False
         for ch in set(s):
-            if ch not in FMT_ALPHABET and s.count(ch) != fixed.count(ch) and all(isinstance(p, str) or p.kind == 'f' for p in r.parts):
+            if ch not in FMT_ALPHABET and s.count(ch) != fixed.count(ch) and all(isinstance(p, str) or p.kind in ('f', 'exact') for p in r.parts):
                 return False
     raise Unsupported('equality of symbolic texts')
 
@@ -1117,7 +1130,7 @@ def rope_getitem(I, r, k):
             return parts[-1][k]
         if k >= 0 and isinstance(parts[0], str) and len(parts[0]) > k:
             return parts[0][k]
-        if k == -1 and isinstance(parts[-1], Fmt) and parts[-1].kind == 'f':
+        if k == -1 and isinstance(parts[-1], Fmt) and parts[-1].kind in ('f', 'exact'):
             return DigitChar()
         raise Unsupported('rope index inside symbolic piece')
     raise Unsupported('rope index')
@@ -1153,9 +1166,10 @@ def format_value(I, v, spec, conv):
         return format(float(v), spec)
     if isinstance(v, Sym) and v.kind in ('real', 'int'):
         import re
-        m = re.fullmatch(r'0?\.(\d+)f', spec)
+        m = re.fullmatch(r'0?\.(\d+)([fFgGeE])', spec)
         if m:
-            return Rope([Fmt(v, int(m.group(1)))])
+            # 'f' is the fixed-point rendering the conventions require; other presentation types are kept apart (different text)
+            return Rope([Fmt(v, int(m.group(1)), 'f' if m.group(2) == 'f' else 'fmt-' + m.group(2))])
         raise Unsupported(f'format spec {spec!r} on symbolic number')
     if isinstance(v, Rope):
         raise Unsupported('format spec on symbolic text')
